@@ -471,6 +471,23 @@ static void emitCall(const CallBase& CB, FnCtx& C, const Function& F)
       if(n.startswith("llvm.umax")) { os << "  " << lhs << "(" << arg(0) << " > " << arg(1) << " ? " << arg(0) << " : " << arg(1) << ");\n"; return; }
       if(n.startswith("llvm.umin")) { os << "  " << lhs << "(" << arg(0) << " < " << arg(1) << " ? " << arg(0) << " : " << arg(1) << ");\n"; return; }
       if(n.startswith("llvm.abs")) { os << "  " << lhs << "(" << S(CB.getType(), arg(0)) << " < 0 ? (" << cty(CB.getType()) << ")(0 - " << arg(0) << ") : " << arg(0) << ");\n"; return; }
+      if(n.startswith("llvm.is.constant")) { os << "  " << lhs << "0;\n"; return; }
+      if(n.startswith("llvm.uadd.with.overflow") || n.startswith("llvm.umul.with.overflow") || n.startswith("llvm.usub.with.overflow")
+            || n.startswith("llvm.sadd.with.overflow") || n.startswith("llvm.smul.with.overflow") || n.startswith("llvm.ssub.with.overflow"))
+      {
+         // {result, overflow bit}: computed in 128-bit arithmetic (operands are at most 64 bits wide)
+         bool sg = n[5] == 's'; char opc = n[6] == 'a' ? '+' : n[6] == 'm' ? '*' : '-';
+         Type* OT = CB.getArgOperand(0)->getType(); unsigned bw = OT->getIntegerBitWidth();
+         string nm = C.name[&CB];
+         string wide = sg ? "__int128" : "unsigned __int128";
+         string a = sg ? "(__int128)" + S(OT, arg(0)) : "(unsigned __int128)" + arg(0);
+         string b = sg ? "(__int128)" + S(OT, arg(1)) : "(unsigned __int128)" + arg(1);
+         os << "  { " << wide << " w_ = " << a << " " << opc << " " << b << "; " << nm << ".f0 = " << maskTo(OT, "w_") << "; ";
+         if(sg) os << nm << ".f1 = (w_ != (__int128)" << S(OT, nm + ".f0") << "); }\n";
+         else if(opc == '-') os << nm << ".f1 = (" << arg(0) << " < " << arg(1) << "); }\n";
+         else os << nm << ".f1 = ((w_ >> " << bw << ") != 0); }\n";
+         return;
+      }
       errs() << "unsupported intrinsic " << n << "\n";
       os << "  INTRINSIC_UNSUPPORTED_" << sanitize(n) << ";\n";
       return;
@@ -484,7 +501,7 @@ static void emitCall(const CallBase& CB, FnCtx& C, const Function& F)
       else os << "  VP_COVER_AT(" << id << ");\n";
       return;
    }
-   if(callee && callee->isDeclaration() && (callee->getName() == "malloc" || callee->getName() == "realloc" || callee->getName() == "_Znwm" || callee->getName() == "_Znam"))
+   if(callee && callee->isDeclaration() && (callee->getName() == "malloc" || callee->getName() == "realloc"))
    {
       // typed allocation: if the result is cast to T*, allocate an array of T so that CBMC keeps the object field-sensitive
       Type* ET = nullptr;
@@ -951,9 +968,9 @@ int main(int argc, char** argv)
          // a referenced global that no linked translation unit defines: only the C++ runtime's own objects are
          // tolerated (as zero objects); anything else would silently read as 0 in the encoding
          StringRef n = G.getName();
-         bool ok = n.startswith("_ZSt") || n.startswith("_ZTVN10__cxxabiv") || n.startswith("_ZTVS") || n.startswith("_ZTVN") || n.startswith("_ZTIS") || n.startswith("_ZTIN")
-                   || n.startswith("_ZTT") || n == "__dso_handle" || n == "__libc_single_threaded" || n == "stdout" || n == "stderr" || n == "stdin" || n.startswith("_ZNSt") || n.startswith("_ZTISt") || n.startswith("_ZTVSt")
-                   || n.startswith("_ZTIP") || n.startswith("_ZTI") ;
+         string dn = llvm::demangle(n.str());
+         bool ok = n.startswith("_ZSt") || n.startswith("_ZNSt") || n == "__dso_handle" || n == "__libc_single_threaded" || n == "stdout" || n == "stderr" || n == "stdin"
+                   || ((n.startswith("_ZTV") || n.startswith("_ZTI") || n.startswith("_ZTT") || n.startswith("_ZTS")) && dn.find("soplex") == string::npos && dn.find("vph") == string::npos);
          if(!ok) { errs() << "ll2c: undefined external global (link its defining source via repo_srcs): " << llvm::demangle(n.str()) << "\n"; undefGlobal = true; }
       }
       glob << declare(VT, gName[&G]);
